@@ -52,3 +52,104 @@ Proof.
   intros s tab. assert (H : has_char c_dollar s = false) by (vm_compute; reflexivity).
   exact (conj H (C09_no_retyping s 41%Z tab H)).
 Qed.
+
+(* ================================================================================================================= *)
+(* A JSON file means the same as the equivalent native file                                                          *)
+(* ================================================================================================================= *)
+From DictIO Require Import KeyPath Layout Lexer NativeSpec E2ESpec E2EProofs E2EHoles E2EFullProofs FoamProofs.
+
+(* stable_tree t (FoamProofs): written_value v = v for every leaf v of t -- the classifier reads the written form of
+   every leaf back as the leaf itself (ints, floats, booleans, none always; a string unless it spells a number, a
+   boolean, none, or is padded with blanks / wrapped in quotes).
+   For a tree of the native writer domain (C01) that is stable, free of dollar signs and placeholder-shaped names
+   (ordinary_kvs) and of include keys: the data the JSON front end delivers (on what json.loads returns for the JSON
+   rendering) and the data the native parser reads from the native rendering are both the tree itself.
+   Side conditions of the native leg as in C01_roundtrip; the JSON leg needs none of them, and the two counters are
+   independent. *)
+Theorem C09_json_equals_native : forall dir c1 c2 kvs,
+  wf (Dict kvs) = true -> writable_tree (Dict kvs) = true -> stable_tree (Dict kvs) = true ->
+  ordinary_kvs kvs = true -> no_include_keys kvs = true ->
+  (-1 <= c2)%Z -> (Z.of_nat (nq (Dict kvs)) <= 1000000)%Z -> quoted_within 11 (Dict kvs) = true ->
+  sd_data (pr_sd (json_parse dir c1 kvs)) = kvs /\
+  exists c2', parse_string true dir c2 (to_string_plain kvs) = Ok (mkParsed (mkSD kvs [] [] [] []) c2').
+Proof. exact json_equals_native. Qed.
+Print Assumptions C09_json_equals_native.
+
+(* depth 3: ints, floats, booleans, none, a string with blanks, an apostrophe, a list of lists, a dict inside a list *)
+Definition c09_doc : list (key * tree) :=
+  [(KS (of_string "name"), Leaf (SStr (of_string "two words")));
+   (KS (of_string "n"), Leaf (SInt (-12)));
+   (KS (of_string "sub"), Dict [(KS (of_string "f"), Leaf (SFloat (of_string "1.5e-3"))); (KS (of_string "t"), Leaf (SBool true));
+                                (KS (of_string "deep"), Dict [(KS (of_string "nothing"), Leaf SNone); (KI 4, Leaf (SStr (of_string "it's")))])]);
+   (KS (of_string "arr"), Lst [Leaf (SInt 1); Lst [Leaf (SInt (-2)); Lst [Leaf (SBool false)]; Leaf (SStr (of_string "word"))];
+                               Dict [(KS (of_string "k"), Leaf (SStr [])); (KS (of_string "x"), Leaf (SFloat (of_string "2.0")))]])].
+
+Example C09_json_equals_native_nonvacuous :
+  wf (Dict c09_doc) = true /\ writable_tree (Dict c09_doc) = true /\ stable_tree (Dict c09_doc) = true /\
+  ordinary_kvs c09_doc = true /\ no_include_keys c09_doc = true /\
+  (Z.of_nat (nq (Dict c09_doc)) <= 1000000)%Z /\ quoted_within 11 (Dict c09_doc) = true /\
+  (* computed *)
+  sd_data (pr_sd (json_parse (of_string "/r") 41 c09_doc)) = c09_doc /\
+  parse_string true (of_string "/r") 41 (to_string_plain c09_doc) = Ok (mkParsed (mkSD c09_doc [] [] [] []) 44) /\
+  (* by the theorem *)
+  (sd_data (pr_sd (json_parse (of_string "/r") 41 c09_doc)) = c09_doc /\
+   exists c2', parse_string true (of_string "/r") (-1) (to_string_plain c09_doc) = Ok (mkParsed (mkSD c09_doc [] [] [] []) c2')).
+Proof.
+  assert (H1 : wf (Dict c09_doc) = true) by (vm_compute; reflexivity).
+  assert (H2 : writable_tree (Dict c09_doc) = true) by (vm_compute; reflexivity).
+  assert (H3 : stable_tree (Dict c09_doc) = true) by (vm_compute; reflexivity).
+  assert (H4 : ordinary_kvs c09_doc = true) by (vm_compute; reflexivity).
+  assert (H5 : no_include_keys c09_doc = true) by (vm_compute; reflexivity).
+  assert (H6 : (Z.of_nat (nq (Dict c09_doc)) <= 1000000)%Z) by (vm_compute; discriminate).
+  assert (H7 : quoted_within 11 (Dict c09_doc) = true) by (vm_compute; reflexivity).
+  refine (conj H1 (conj H2 (conj H3 (conj H4 (conj H5 (conj H6 (conj H7 (conj _ (conj _ _))))))))); try (vm_compute; reflexivity).
+  exact (C09_json_equals_native (of_string "/r") 41%Z (-1)%Z c09_doc H1 H2 H3 H4 H5 ltac:(discriminate) H6 H7).
+Qed.
+
+(* in general (no stability hypothesis): the native reading is the JSON reading with every leaf passed through the
+   classifier (written_value); this is the whole difference between the two formats on the common domain *)
+Theorem C09_json_native_up_to_classifier : forall dir c1 c2 kvs,
+  wf (Dict kvs) = true -> writable_tree (Dict kvs) = true ->
+  ordinary_kvs kvs = true -> no_include_keys kvs = true ->
+  (-1 <= c2)%Z -> (Z.of_nat (nq (Dict kvs)) <= 1000000)%Z -> quoted_within 11 (Dict kvs) = true ->
+  exists c2', parse_string true dir c2 (to_string_plain kvs) =
+    Ok (mkParsed (mkSD (kvs_of (map_leaves written_value (Dict (sd_data (pr_sd (json_parse dir c1 kvs)))))) [] [] [] []) c2').
+Proof. exact json_native_up_to_classifier. Qed.
+Print Assumptions C09_json_native_up_to_classifier.
+
+(* what differs when a string IS re-typable (stable_tree fails): the JSON string "12" stays a string, the native text
+   12 is an int; likewise "true", "NULL", a padded word and a number with a leading zero *)
+Example C09_documented_difference :
+  let kvs := [(KS (of_string "n"), Leaf (SStr (of_string "12"))); (KS (of_string "b"), Leaf (SStr (of_string "true")));
+              (KS (of_string "z"), Leaf (SStr (of_string "NULL"))); (KS (of_string "p"), Leaf (SStr (of_string " on ")));
+              (KS (of_string "o"), Leaf (SStr (of_string "007"))); (KS (of_string "s"), Leaf (SStr (of_string "plain")))] in
+  wf (Dict kvs) = true /\ writable_tree (Dict kvs) = true /\ ordinary_kvs kvs = true /\ no_include_keys kvs = true /\
+  stable_tree (Dict kvs) = false /\
+  sd_data (pr_sd (json_parse (of_string "/r") 41 kvs)) = kvs /\
+  parse_string true (of_string "/r") 41 (to_string_plain kvs) =
+    Ok (mkParsed (mkSD [(KS (of_string "n"), Leaf (SInt 12)); (KS (of_string "b"), Leaf (SBool true));
+                        (KS (of_string "z"), Leaf SNone); (KS (of_string "p"), Leaf (SBool true));
+                        (KS (of_string "o"), Leaf (SInt 7)); (KS (of_string "s"), Leaf (SStr (of_string "plain")))] [] [] [] []) 42).
+Proof. vm_compute. repeat split; reflexivity. Qed.
+
+Example C09_json_native_up_to_classifier_nonvacuous :
+  let kvs := [(KS (of_string "n"), Leaf (SStr (of_string "12"))); (KS (of_string "q"), Leaf (SStr (of_string "two words")));
+              (KS (of_string "l"), Lst [Leaf (SStr (of_string "true")); Dict [(KI 1, Leaf (SStr (of_string " x ")))]])] in
+  wf (Dict kvs) = true /\ writable_tree (Dict kvs) = true /\ ordinary_kvs kvs = true /\ no_include_keys kvs = true /\
+  (Z.of_nat (nq (Dict kvs)) <= 1000000)%Z /\ quoted_within 11 (Dict kvs) = true /\
+  kvs_of (map_leaves written_value (Dict (sd_data (pr_sd (json_parse [] 5 kvs))))) =
+    [(KS (of_string "n"), Leaf (SInt 12)); (KS (of_string "q"), Leaf (SStr (of_string "two words")));
+     (KS (of_string "l"), Lst [Leaf (SBool true); Dict [(KI 1, Leaf (SStr (of_string " x ")))]])] /\
+  (exists c2', parse_string true [] 0 (to_string_plain kvs) =
+    Ok (mkParsed (mkSD (kvs_of (map_leaves written_value (Dict (sd_data (pr_sd (json_parse [] 5 kvs)))))) [] [] [] []) c2')).
+Proof.
+  intros kvs.
+  assert (H1 : wf (Dict kvs) = true) by (vm_compute; reflexivity).
+  assert (H2 : writable_tree (Dict kvs) = true) by (vm_compute; reflexivity).
+  assert (H4 : ordinary_kvs kvs = true) by (vm_compute; reflexivity).
+  assert (H5 : no_include_keys kvs = true) by (vm_compute; reflexivity).
+  assert (H6 : (Z.of_nat (nq (Dict kvs)) <= 1000000)%Z) by (vm_compute; discriminate).
+  assert (H7 : quoted_within 11 (Dict kvs) = true) by (vm_compute; reflexivity).
+  refine (conj H1 (conj H2 (conj H4 (conj H5 (conj H6 (conj H7 (conj _ _))))))); [vm_compute; reflexivity|].
+  exact (C09_json_native_up_to_classifier [] 5%Z 0%Z kvs H1 H2 H4 H5 ltac:(discriminate) H6 H7).
+Qed.
